@@ -182,7 +182,7 @@ CLAIMED = {
         technique="Lean 4 theorems on the emitted line templates + quoting round trip + execution oracle on a scratch file system",
         design="7/C17"),
     "C18": dict(
-        text="Theorems (Props/C18.lean): for every bare program name and literal arguments without $/backquote the command line is split by the bash word model into exactly name and "
+        text="Theorems (Props/C18.lean): for every program name and all literal arguments without $/backquote (blanks, quotes, backslashes, glob characters, leading dashes included - the name is quoted like an argument since fix 44748e3) the command line is split by the bash word model into exactly name and "
              "the given arguments byte for byte; chains are joined left to right by |; a captured chain is h1=$(chain) directly followed by h2=$?. argv probe oracle on executions.",
         note=TB + "the word-splitting model covers blanks, double quotes and backslash rules; $( ), $? and | are bash semantics (oracle).",
         technique="Lean 4 theorem: bash word-splitting model inverts the converter's argument quoting + correspondence + argv probe",
